@@ -9,7 +9,7 @@
    The model is Model/Schema.v (augment_module, augment_pass, augment_loop, Process). *)
 From Coq Require Import List NArith Bool Permutation Ascii.
 From Coq Require String.
-From GY Require Import Model.Schema Spec.C07 Proofs.AugmentProofs.
+From GY Require Import Model.Schema Spec.C07 Proofs.AugmentProofs Proofs.AugmentBodyProofs.
 From GY Require Spec.C04.
 Import ListNotations.
 
@@ -142,6 +142,21 @@ Theorem C07_T3_not_applicable : forall SC fl a,
    exists p, afind SC fl (a_mod a) (m_name (a_mod a), []) (a_path a) = Some p /\
              (fl p = None \/ exists l, fl p = Some l /\ l_hasdir l = false)).
 Proof. exact astep_none_iff. Qed.
+
+(* whether a pending augment can be applied is decided by the augmenting module and the path alone: what the
+   augment would graft (nothing at all, for an empty statement or one that holds only description / reference /
+   status / when or uses of groupings without nodes) plays no part, so with C07_T3_reports_unapplied an augment
+   without nodes on a missing or childless target is reported like any other *)
+Theorem C07_T3_applicability_ignores_body : forall SC fl a a',
+  a_mod a = a_mod a' -> a_path a = a_path a' ->
+  (astep SC fl a = None <-> astep SC fl a' = None).
+Proof. exact astep_applicable_ignores_body. Qed.
+
+(* and when such an augment can be applied, its step leaves the view as it is (dirty only by its own errors) *)
+Theorem C07_T4_nothing_to_graft : forall SC fl a fl' d,
+  a_dir a = [] -> astep SC fl a = Some (fl', d) ->
+  (forall q, fl' q = fl q) /\ d = a_err a.
+Proof. exact astep_nothing_to_graft. Qed.
 
 (* a graft is clean exactly when no child name is present under the target and none occurs twice *)
 Theorem C07_T3_conflict : forall fl p kids,
@@ -296,6 +311,25 @@ Example C07_ex_reported :
   Process [exA; exLeaf] false false [S_ "b"; S_ "a"] = RErr /\
   Process [exA; exB; exDup] false false ord1 = RErr /\
   Process [exA; exB; exDup] false false ord2 = RErr.
+Proof. vm_compute. repeat split. Qed.
+
+(* augments that define no node (empty body; uses of a grouping without nodes): reported on a missing or leaf
+   target in both orders, clean - and without effect - on a proper target *)
+Definition exGE := DGrouping 7 (S_ "ge") [].
+Definition exEmptyMissing := md "b" [(S_ "a", S_ "a")] [] [(S_ "/a:nope", [])].
+Definition exEmptyLeaf := md "b" [(S_ "a", S_ "a")] [] [(S_ "/a:c/a:l", [])].
+Definition exUsesEmptyMissing := md "b" [(S_ "a", S_ "a")] [exGE] [(S_ "/a:c/a:nope", [DUses (S_ "ge")])].
+Definition exEmptyGood := md "b" [(S_ "a", S_ "a")] [exGE] [(S_ "/a:c", []); (S_ "/a:c", [DUses (S_ "ge")])].
+
+Example C07_ex_nothing_to_graft_reported :
+  Process [exA; exEmptyMissing] false false [S_ "a"; S_ "b"] = RErr /\
+  Process [exA; exEmptyMissing] false false [S_ "b"; S_ "a"] = RErr /\
+  Process [exA; exEmptyLeaf] false false [S_ "a"; S_ "b"] = RErr /\
+  Process [exA; exEmptyLeaf] false false [S_ "b"; S_ "a"] = RErr /\
+  Process [exA; exUsesEmptyMissing] false false [S_ "a"; S_ "b"] = RErr /\
+  Process [exA; exUsesEmptyMissing] false false [S_ "b"; S_ "a"] = RErr /\
+  is_ok (Process [exA; exEmptyGood] false false [S_ "a"; S_ "b"]) = true /\
+  Process [exA; exEmptyGood] false false [S_ "a"; S_ "b"] = Process [exA; md "b" [(S_ "a", S_ "a")] [exGE] []] false false [S_ "a"; S_ "b"].
 Proof. vm_compute. repeat split. Qed.
 
 (* regression witness (was order-dependent before the rounds): a chain that starts below the case FixChoice
